@@ -252,10 +252,23 @@ func runPull(t *testing.T, tape *verifsim.Tape, prop, tier string, keepLog bool)
 		if tier == "thorough" {
 			cfg.phases += d("phases+", 3)
 		}
+		// re-download arm: one model, its tag is updated and rolled back every phase, no
+		// interrupts, and the only faults are flipped bytes and ignored ranges - so that a
+		// digest that was verified, pruned and is downloaded again arrives damaged. Aims at
+		// verification state that outlives the file it was computed for.
+		redownload := d("arm-redownload", 12) == 0
+		if redownload {
+			cfg.nModels, cfg.concurrent, cfg.cancelRate, cfg.updateTag = 1, false, 0, true
+			cfg.phases = 3 + d("phases-rd", 4)
+		}
 		minDownloadPartSize, maxDownloadPartSize = cfg.partSize, cfg.partSize*4
 		w.concurrentPulls = cfg.concurrent
 		w.reg.needAuth = cfg.needAuth
 		w.reg.plan = drawFaultPlan()
+		if redownload {
+			w.reg.plan = &faultPlan{enabled: map[string]bool{fFlip: true, fRangeIgnored: d("rd-range", 2) == 0}, rate: 2 + d("rd-rate", 3), budget: 4 + d("rd-budget", 8)}
+			verifsim.Probe("arm_redownload")
+		}
 		w.note("config: models=%d part=%dB auth=%v phases=%d concurrent=%v cancel=1/%d updatetag=%v net: %s", cfg.nModels, cfg.partSize, cfg.needAuth, cfg.phases, cfg.concurrent, cfg.cancelRate, cfg.updateTag, w.reg.plan)
 
 		// publish models; layers may be shared between models
@@ -287,11 +300,21 @@ func runPull(t *testing.T, tape *verifsim.Tape, prop, tier string, keepLog bool)
 
 		stepBudget := 150000
 		for ph := 0; ph < cfg.phases; ph++ {
-			if cfg.updateTag && ph > 0 && d("update-now", 2) == 0 {
+			if cfg.updateTag && ph > 0 && (redownload || d("update-now", 2) == 0) {
 				i := d("update-which", len(specs))
 				old := specs[i]
-				specs[i] = mkModel(i, "latest")
-				specs[i].prev = old
+				if old.prev != nil && (d("rollback", 3) == 0 || (redownload && ph%2 == 0)) {
+					// the tag is rolled back to the version published before
+					rb := *old.prev
+					rb.prev = old
+					mb, _ := json.Marshal(rb.man)
+					w.reg.manifests[rb.key] = mb
+					specs[i] = &rb
+					verifsim.Probe("tag_rolled_back")
+				} else {
+					specs[i] = mkModel(i, "latest")
+					specs[i].prev = old
+				}
 				for _, l := range append(append([]Layer{}, old.man.Layers...), old.man.Config) {
 					w.staleDigests[l.Digest] = true
 				}
